@@ -328,6 +328,10 @@ def _eval_const(expr: str, env: dict):
         }
         if not isinstance(a, (int, float)) or not isinstance(b, (int, float)):
             raise ValueError("unsupported operand type")
+        if opcls in (ast.Pow, ast.LShift) and isinstance(a, int) and isinstance(b, int):
+            bits = a.bit_length() * b if opcls is ast.Pow else a.bit_length() + b
+            if bits > 4096:
+                raise ValueError("constant too large to fold")
         return ops[opcls](a, b)
 
     tree = ast.parse(expr, mode="eval")
